@@ -1,2 +1,3 @@
 import Casm.Model.Bits
 import Casm.Proofs.BitsLemmas
+import Casm.Model.Parse
